@@ -157,6 +157,13 @@ def role_names(fn):
                     if unparse(x) == a.id + ".address" and isinstance(
                             y, ast.Name):
                         ren[y.id] = "dtr0"
+    # for L in cls.locations: ... raise MemoryValueNotWriteable   L -> location
+    for n in ast.walk(fn):
+        if isinstance(n, ast.For) and unparse(n.iter) == "cls.locations" and \
+                isinstance(n.target, ast.Name) and any(
+                    isinstance(x, ast.Raise) and "MemoryValueNotWriteable" in
+                    unparse(x, 300) for x in ast.walk(n)):
+            ren.setdefault(n.target.id, "location")
     flags = set()
     for n in ast.walk(fn):
         if isinstance(n, ast.If) and "NVM_RW_L" in unparse(n.test, 400):
@@ -177,8 +184,54 @@ def role_names(fn):
         return fn
     taken = {n.id for n in ast.walk(fn) if isinstance(n, ast.Name)} | {
         a.arg for a in fn.args.args + fn.args.kwonlyargs}
-    if any(v in taken and v not in ren for v in ren.values()) or len(
-            set(ren.values())) != len(ren):
+    # `location` bound by another loop over the locations is the same role
+    # (every such loop rebinds it before reading it)
+    loop_bound = set()
+    for n in ast.walk(fn):
+        if isinstance(n, ast.For):
+            for x in ast.walk(n.target):
+                if isinstance(x, ast.Name):
+                    loop_bound.add(x.id)
+    outside = set()
+
+    def scan(stmts, bound):
+        for st in stmts:
+            if isinstance(st, ast.For):
+                b2 = bound | {x.id for x in ast.walk(st.target)
+                              if isinstance(x, ast.Name)}
+                for x in ast.walk(st.iter):
+                    if isinstance(x, ast.Name) and x.id not in bound:
+                        outside.add(x.id)
+                scan(st.body, b2)
+                scan(st.orelse, bound)
+                continue
+            blocks = [getattr(st, f) for f in ("body", "orelse", "finalbody")
+                      if isinstance(getattr(st, f, None), list)]
+            if blocks and not isinstance(st, (ast.FunctionDef,
+                                              ast.AsyncFunctionDef)):
+                for f in ("test", "items"):
+                    v = getattr(st, f, None)
+                    for e in (v if isinstance(v, list) else [v]):
+                        if e is not None:
+                            for x in ast.walk(e):
+                                if isinstance(x, ast.Name) and \
+                                        x.id not in bound:
+                                    outside.add(x.id)
+                for b in blocks:
+                    scan(b, bound)
+                for h in getattr(st, "handlers", []):
+                    scan(h.body, bound)
+                continue
+            for x in ast.walk(st):
+                if isinstance(x, ast.Name) and x.id not in bound:
+                    outside.add(x.id)
+    scan(fn.body, set())
+    shared_ok = {"location"} if "location" in loop_bound and \
+        "location" not in outside else set()
+    vals = [v for v in ren.values()]
+    if any(v in taken and v not in ren and v not in shared_ok
+           for v in vals) or len(set(vals) - shared_ok) != len(
+               [v for v in vals if v not in shared_ok]):
         return fn          # the canonical name is used for something else
     from .inline import acopy
     fn = acopy(fn)
@@ -205,6 +258,11 @@ def method_cfg(world, cls_qname, name, inline_also=(), lift_values=False):
                    primitives=tuple(p for p in PRIMITIVES
                                     if p not in inline_also),
                    lift_values=lift_values)
+    from .normal import fold_result_copies
+    if fold_result_copies(fn) or any(
+            isinstance(n, ast.Name) and "__" in n.id for n in ast.walk(fn)):
+        # locals an inlined helper brought along are named by role as well
+        fn = role_names(fn)
     q = "%s.%s" % (cls_qname, name)
     # `general = gear.general if isinstance(addr, GearAddress) else
     # device.general` followed by `yield general.X(...)` everywhere: after
